@@ -1,4 +1,5 @@
 import NeumannModel.Snap.StoreLemmas
+import NeumannModel.Snap.LoopLemmas
 import NeumannModel.Snap.Props
 /-
   C07 — store-level clauses: "saving a store and loading it back gives a store whose every key, field
@@ -41,15 +42,7 @@ theorem router_dim_invariant (cfg : RouterCfg) (ops : List ROp) : ((Router.new c
     | put k v victim =>
       simp only [Router.apply, Router.put]
       cases classifyKey k with
-      | embedding =>
-        simp only
-        cases v.embOf with
-        | none => rfl
-        | some vec =>
-          simp only
-          cases hs : r.emb.set (r.index.getOrCreate k).2 vec with
-          | none => rfl
-          | some e => exact ESlab.set_dim _ _ _ _ hs
+      | embedding => exact ESlab.putValue_dim _ _ _
       | cache => rfl
       | graph => rfl
       | table => rfl
@@ -254,5 +247,175 @@ example :
     (Router.restore id (r.snapshot (fun _ => true)).2).peek "_cache:1".toList =
       some [("n".toList, .scalar (.int 5))] := by
   decide
+
+/-! ## the store-level loops: `restore_from_bytes`, the v2 loader, the quantising format -/
+
+/-- **`restore_from_bytes`, key by key**: whatever the store held before, for every key that is not a
+    cache key, the restored store answers `get` exactly like the router decoded from the bytes when the
+    key is among the scanned keys (`order`: the scan in whatever order the hash set yields it), and
+    `NotFound` otherwise — earlier content of the store does not survive, in any order of the loop -/
+theorem restore_from_bytes_get (target new : Router) (order : List Name) (hnd : order.Nodup)
+    (key : Name) (hk : classifyKey key ≠ .cache) :
+    (restoreFromBytes target new order).peek key = if key ∈ order then new.peek key else none := by
+  unfold restoreFromBytes
+  have hfold : order.foldl (fun t key => t.putOpt key (new.peek key)) target.clear =
+      (order.map (fun k => (k, new.peek k))).foldl (fun t p => t.putOpt p.1 p.2) target.clear := by
+    rw [List.foldl_map]
+  rw [hfold, fold_putOpt_peek _ target.clear (by exact EIndex.new_wf) (by simpa [aKeys, List.map_map, Function.comp_def] using hnd) key hk,
+    aFind_map_pair]
+  have hclear : target.clear.peek key = none := by
+    unfold Router.clear Router.peek
+    cases hc : classifyKey key with
+    | cache => exact absurd hc hk
+    | embedding => rfl
+    | graph => rfl
+    | table => rfl
+    | metadata => rfl
+  by_cases hm : key ∈ order
+  · simp only [hm, if_true]
+    cases new.peek key with
+    | none => exact hclear
+    | some v => rfl
+  · simp only [hm, if_false]
+    exact hclear
+
+/-- composed with the v3 restore: below the tensor-train threshold `restore_from_bytes(snapshot_bytes())`
+    gives every scanned non-cache key the value the saved store returns for it -/
+theorem restore_from_bytes_of_snapshot_get_exact (ttOk : List Nat → Bool) (ttRecon : List Nat → List Nat)
+    (target r : Router) (h : r.WF) (hd : r.emb.dim < TT_MIN_DIMENSION) (order : List Name) (hnd : order.Nodup)
+    (key : Name) (hk : classifyKey key ≠ .cache) (hm : key ∈ order) :
+    (restoreFromBytes target (Router.restore ttRecon (r.snapshot ttOk).2) order).peek key = r.peek key := by
+  rw [restore_from_bytes_get _ _ order hnd key hk]
+  simp only [hm, if_true]
+  exact snapshot_restore_get_exact_short_dim ttOk ttRecon r h hd key
+
+/-- **what `restore_from_bytes` never carries** (known findings `restore_from_bytes/graph_tensor_not_restored`,
+    `…/blob_log_not_restored`; the relational slab is handled the same way by `clear`): whatever the
+    decoded router holds in its graph tensor and blob log, the restored store's are the cleared ones -/
+theorem restore_from_bytes_drops_graph_and_blobs (target new : Router) (order : List Name) :
+    (restoreFromBytes target new order).graph = target.graph.clear ∧
+    (restoreFromBytes target new order).blobs = target.blobs.clear := by
+  unfold restoreFromBytes
+  have hfold : order.foldl (fun t key => t.putOpt key (new.peek key)) target.clear =
+      (order.map (fun k => (k, new.peek k))).foldl (fun t p => t.putOpt p.1 p.2) target.clear := by
+    rw [List.foldl_map]
+  rw [hfold]
+  exact fold_putOpt_graph_blobs _ target.clear
+
+example :
+    let new : Router := { Router.new ⟨4, 2, 3, 64⟩ with graph := ((GraphT.new 3).addEdge 1 2 [] true).1 }
+    new.graph.outgoing 1 = [(2, 0)] ∧ (restoreFromBytes (Router.new ⟨4, 2, 3, 64⟩) new []).graph.outgoing 1 = [] := by
+  decide
+
+/-- **the legacy v2 loader**: a file whose map has the entries `entries` (a map: distinct keys) loads
+    to a store that returns, for every key that is not a cache key, exactly the map's value -/
+theorem load_v2_get (cfg : RouterCfg) (entries : List (Name × TData)) (hnd : (aKeys entries).Nodup)
+    (key : Name) (hk : classifyKey key ≠ .cache) :
+    (loadV2Entries cfg entries).peek key = aFind key entries := by
+  unfold loadV2Entries
+  have hfold : entries.foldl (fun r p => r.put p.1 p.2 0) (Router.new cfg) =
+      (entries.map (fun p => (p.1, some p.2))).foldl (fun t p => t.putOpt p.1 p.2) (Router.new cfg) := by
+    rw [List.foldl_map]; rfl
+  rw [hfold, fold_putOpt_peek _ (Router.new cfg) (by exact EIndex.new_wf)
+    (by simpa [aKeys, List.map_map, Function.comp_def] using hnd) key hk]
+  have hf : aFind key (entries.map (fun p => (p.1, some p.2))) = (aFind key entries).map some :=
+    aFind_map_val some entries key
+  rw [hf]
+  cases aFind key entries with
+  | some v => rfl
+  | none =>
+    simp only [Option.map_none]
+    unfold Router.new Router.peek
+    cases hc : classifyKey key with
+    | cache => exact absurd hc hk
+    | embedding => rfl
+    | graph => rfl
+    | table => rfl
+    | metadata => rfl
+
+example : (loadV2Entries ⟨4, 2, 3, 64⟩ [("emb:a".toList, [(EMB_FIELD, .vector [1, 2, 3, 4])]), ("user:1".toList, [])]).peek "emb:a".toList =
+    some [(EMB_FIELD, .vector [1, 2, 3, 4])] := by decide
+
+/-- one entry of the quantising format: when every field value survives its own round trip
+    (`Props.compressed_value_exact` says when) and the field names are distinct (a map), the decoded
+    entry is the saved one -/
+theorem quant_entry_exact (ttRecon : List Nat → List Nat) (cfg : CConfig) (key : Name) (d : TData)
+    (hnd : (aKeys d).Nodup) (hex : ∀ p ∈ d, roundValue ttRecon cfg key p.1 p.2 = p.2) :
+    decompressEntry ttRecon (compressEntry cfg key d) = d := by
+  unfold decompressEntry compressEntry
+  rw [List.foldl_map]
+  have hstep : (fun (m : TData) (p : Name × TValue) => aInsert p.1 (decompressValue ttRecon (compressValue cfg key p.1 p.2)) m) =
+      (fun m p => aInsert p.1 (roundValue ttRecon cfg key p.1 p.2) m) := rfl
+  rw [hstep]
+  have hmap : d.foldl (fun m p => aInsert p.1 (roundValue ttRecon cfg key p.1 p.2) m) [] =
+      (d.map (fun p => (p.1, roundValue ttRecon cfg key p.1 p.2))).foldl (fun m p => aInsert p.1 p.2 m) [] := by
+    rw [List.foldl_map]
+  rw [hmap, foldl_aInsert_nil _ (by rw [aKeys_map_val (fun k v => roundValue ttRecon cfg key k v)]; exact hnd)]
+  have : d.map (fun p => (p.1, roundValue ttRecon cfg key p.1 p.2)) = d.map id := by
+    apply List.map_congr_left
+    intro p hp
+    simp only [id]
+    rw [hex p hp]
+  rw [this, List.map_id]
+
+/-- **the quantising format at store level**: for every key the save lists (`order` = `scan("")`, distinct)
+    that is not a cache key, the loaded store returns the saved entry with every field through the
+    format's value map — hence the saved entry itself whenever its values round-trip — and keys the
+    save does not list are absent -/
+theorem quant_store_get (ttRecon : List Nat → List Nat) (qcfg : CConfig) (cfg : RouterCfg) (r : Router)
+    (order : List Name) (hnd : order.Nodup) (key : Name) (hk : classifyKey key ≠ .cache) :
+    (loadQuant ttRecon cfg (saveQuant qcfg r order)).peek key =
+      if key ∈ order then (r.peek key).map (fun d => decompressEntry ttRecon (compressEntry qcfg key d)) else none := by
+  unfold loadQuant saveQuant
+  -- the save as a list of optional entries, the load as a loop of optional puts
+  have hfold : ∀ (t : Router) (l : List Name),
+      (l.filterMap (fun key => (r.peek key).map (fun d => (key, compressEntry qcfg key d)))).foldl
+        (fun r p => r.put p.1 (decompressEntry ttRecon p.2) 0) t =
+      (l.map (fun k => (k, (r.peek k).map (fun d => decompressEntry ttRecon (compressEntry qcfg k d))))).foldl
+        (fun t p => t.putOpt p.1 p.2) t := by
+    intro t l
+    induction l generalizing t with
+    | nil => rfl
+    | cons k ks ih =>
+      simp only [List.filterMap_cons, List.map_cons, List.foldl_cons]
+      cases hp : r.peek k with
+      | none => simp only [Option.map_none]; exact ih t
+      | some d => simp only [Option.map_some, List.foldl_cons]; exact ih _
+  rw [hfold, fold_putOpt_peek _ (Router.new cfg) (by exact EIndex.new_wf)
+    (by simpa [aKeys, List.map_map, Function.comp_def] using hnd) key hk, aFind_map_pair]
+  have hnew : (Router.new cfg).peek key = none := by
+    unfold Router.new Router.peek
+    cases hc : classifyKey key with
+    | cache => exact absurd hc hk
+    | embedding => rfl
+    | graph => rfl
+    | table => rfl
+    | metadata => rfl
+  by_cases hm : key ∈ order
+  · simp only [hm, if_true]
+    cases r.peek key with
+    | none => exact hnew
+    | some d => rfl
+  · simp only [hm, if_false]
+    exact hnew
+
+/-- the key-addressed content of a store comes back exactly through the quantising format when each
+    stored value does -/
+theorem quant_store_get_exact (ttRecon : List Nat → List Nat) (qcfg : CConfig) (cfg : RouterCfg) (r : Router)
+    (order : List Name) (hnd : order.Nodup) (key : Name) (hk : classifyKey key ≠ .cache) (hm : key ∈ order)
+    (hfields : ∀ d, r.peek key = some d → (aKeys d).Nodup ∧ ∀ p ∈ d, roundValue ttRecon qcfg key p.1 p.2 = p.2) :
+    (loadQuant ttRecon cfg (saveQuant qcfg r order)).peek key = r.peek key := by
+  rw [quant_store_get ttRecon qcfg cfg r order hnd key hk]
+  simp only [hm, if_true]
+  cases hp : r.peek key with
+  | none => rfl
+  | some d =>
+    simp only [Option.map_some]
+    rw [quant_entry_exact ttRecon qcfg key d (hfields d hp).1 (hfields d hp).2]
+
+example : (loadQuant id ⟨4, 2, 3, 64⟩ (saveQuant ⟨false, true, true⟩
+      ((Router.new ⟨4, 2, 3, 64⟩).put "user:1".toList [("b".toList, .scalar (.bytes [1, 2, 3])), ("ids".toList, .vector [0x3fc00000])] 0)
+      ["user:1".toList])).peek "user:1".toList =
+    some [("b".toList, .scalar (.bytes [1, 2, 3])), ("ids".toList, .vector [0x3fc00000])] := by decide
 
 end Neumann.Snap.Props
